@@ -259,12 +259,16 @@ func (e *Enc) staticCall(f *frame, st *State, in *ssa.Call, callee *ssa.Function
 	if fc != nil && !fc.Inline {
 		return e.contractCall(f, st, in, callee, fc, args, resShape)
 	}
-	if e.w.canInline(callee) && e.depth < 6 {
+	if ((fc != nil && fc.Inline) || e.w.canInline(callee)) && e.depth < 8 {
 		return e.inlineCall(f, st, in, callee, all, resShape)
 	}
 	// no contract: havoc result and the callee's type-level mod-set
-	e.noteHavoc("call " + name)
 	mods, top := e.w.modSetOf(callee, in.Common(), in.Parent())
+	if top {
+		e.noteHavoc("call " + name + " (may write anything)")
+	} else {
+		e.noteHavoc("call " + name)
+	}
 	preH := st.clone()
 	e.havocHeaps(st, mods, top, "", false)
 	e.preserveLocals(f, in, preH, st)
